@@ -1,4 +1,143 @@
-import GristModel.Engine
+/-
+C31  Actions are marked direct only when the user asked for them.
+Property theorems about the engine model (GristModel/Engine.lean); helper lemmas are in
+GristProofs/EngineLists.lean.
+-/
+import GristProofs.EngineLists
 namespace Grist.Doc
-theorem placeholder_c31 : True := trivial
+
+/-! ### (A1)–(A3) the direct flags run parallel to the stored actions -/
+
+/-- (A1) every kind of step keeps `direct` parallel to `stored`. -/
+theorem direct_parallel_step {st st' : EState} {s : Step}
+    (hl : st.stored.length = st.direct.length) (h : step st s = .ok st') :
+    st'.stored.length = st'.direct.length :=
+  step_parallel hl h
+
+/-- (A2) so does every word of steps (a bundle). -/
+theorem direct_parallel_run {st st' : EState} {w : List Step}
+    (hl : st.stored.length = st.direct.length) (h : run st w = .ok st') :
+    st'.stored.length = st'.direct.length :=
+  run_parallel w hl h
+
+/-- (A3) and so does `_undo_to_checkpoint`. -/
+theorem direct_parallel_rollback {st st' : EState} {ls lu : Nat}
+    (hl : st.stored.length = st.direct.length) (h : rollback st ls lu = .ok st') :
+    st'.stored.length = st'.direct.length :=
+  rollback_parallel hl h
+
+/-! ### (A4) flushes mark their actions non-direct; a doc step records exactly the given flag -/
+
+theorem flush_marks_nondirect_finish (st : EState) :
+    (∃ ext, (stepFinish st).stored = st.stored ++ ext) ∧
+    (stepFinish st).direct =
+      st.direct ++ List.replicate ((stepFinish st).stored.length - st.stored.length) false :=
+  ⟨stepFinish_stored_prefix st, stepFinish_direct st⟩
+
+theorem flush_marks_nondirect_flushcol {st st' : EState} {t c : String}
+    (h : stepFlushCol st t c = .ok st') :
+    (∃ ext, st'.stored = st.stored ++ ext) ∧
+    st'.direct = st.direct ++ List.replicate (st'.stored.length - st.stored.length) false := by
+  obtain ⟨ext, h1, h2, _⟩ := stepFlushCol_append h
+  exact ⟨⟨ext, h1⟩, by rw [h2, h1]; simp⟩
+
+theorem doc_step_marks_given_flag {st st' : EState} {a : DocAction} {b : Bool}
+    (h : stepDoc st a b = .ok st') :
+    st'.stored = st.stored ++ [a] ∧ st'.direct = st.direct ++ [b] :=
+  stepDoc_append h
+
+/-- (A4), all step kinds at once: a step appends a block `ext` to `stored` and a parallel block
+    `fl` to `direct`, where (`StepTags`) a `doc a b` step has `ext = [a]`, `fl = [b]`, a `calc`
+    step appends nothing, and the flush steps append only `false` flags. -/
+theorem flush_marks_nondirect {st st' : EState} {s : Step} (h : step st s = .ok st') :
+    ∃ ext fl, StepTags s ext fl ∧ st'.stored = st.stored ++ ext ∧ st'.direct = st.direct ++ fl :=
+  step_append h
+
+/-! ### (A5) the flags of a whole word -/
+
+/-- (A5) Running a word appends to `stored`/`direct` the concatenation of one block per step
+    (`WordTags`: `[a]`/`[b]` for `doc a b`, nothing for `calc`, an all-`false` block for a flush). -/
+theorem direct_flags_of_word {st st' : EState} {w : List Step} (h : run st w = .ok st') :
+    ∃ ext fl, WordTags w ext fl ∧ st'.stored = st.stored ++ ext ∧ st'.direct = st.direct ++ fl :=
+  run_append w h
+
+/-- (A5) Started with empty lists, the stored actions flagged direct are exactly the actions of the
+    `doc _ true` steps of the word, in order and with multiplicity. -/
+theorem direct_actions_are_direct_doc_steps {st st' : EState} {w : List Step}
+    (hs : st.stored = []) (hd : st.direct = []) (h : run st w = .ok st') :
+    directActions st'.stored st'.direct = directDocSteps w := by
+  have := run_directActions (w := w) (by rw [hs, hd]; rfl) h
+  rw [this, hs, hd]; rfl
+
+/-- (A5) positional: a `true` at index `i` of the final `direct` sits on a stored action that was
+    appended by a `doc _ true` step. -/
+theorem direct_true_only_from_direct_doc_step {st st' : EState} {w : List Step}
+    (hs : st.stored = []) (hd : st.direct = []) (h : run st w = .ok st')
+    (i : Nat) (hi : st'.direct[i]? = some true) :
+    ∃ a, st'.stored[i]? = some a ∧ Step.doc a true ∈ w := by
+  obtain ⟨ext, fl, hw, e1, e2⟩ := run_append w h
+  rw [hs, List.nil_append] at e1
+  rw [hd, List.nil_append] at e2
+  rw [e1]; rw [e2] at hi
+  exact hw.true_flag_from_doc_step i hi
+
+/-- (A5) conversely each `doc a b` step of a successful word shows up with its own flag. -/
+theorem doc_step_keeps_its_flag {st st' : EState} {w1 w2 : List Step} {a : DocAction} {b : Bool}
+    (hs : st.stored = []) (hd : st.direct = []) (h : run st (w1 ++ Step.doc a b :: w2) = .ok st') :
+    ∃ i : Nat, st'.stored[i]? = some a ∧ st'.direct[i]? = some b := by
+  obtain ⟨ext, fl, hw, e1, e2⟩ := run_append _ h
+  rw [hs, List.nil_append] at e1
+  rw [hd, List.nil_append] at e2
+  rw [e1, e2]
+  exact hw.doc_step_flag
+
+/-- the number of `true` flags is the number of `doc _ true` steps -/
+theorem direct_true_count {st st' : EState} {w : List Step}
+    (hs : st.stored = []) (hd : st.direct = []) (h : run st w = .ok st') :
+    st'.direct.count true = (directDocSteps w).length := by
+  have hp := run_parallel w (by rw [hs, hd]; rfl) h
+  rw [← direct_actions_are_direct_doc_steps hs hd h, directActions_length _ _ hp]
+
+/-! ### non-vacuity -/
+
+def exInfo : ColInfo := { type := "Int", isFormula := false, formula := "", reverseColId := none }
+def exFInfo : ColInfo := { type := "Int", isFormula := true, formula := "$A", reverseColId := none }
+def exDoc : Doc :=
+  [{ id := "T", rows := [1, 2],
+     cols := [{ id := "A", info := exInfo, cells := fun _ => .int 0 },
+              { id := "B", info := exFInfo, cells := fun _ => .int 0 }] }]
+def exSt : EState := { doc := exDoc }
+def exWord : List Step :=
+  [.doc (.bulkUpdate "T" [1] [("A", [.int 5])]) true,
+   .calc "T" "B" [(1, .int 0, .int 5)],
+   .finish]
+
+example : ∃ st', run exSt exWord = .ok st' ∧
+    st'.stored = [.bulkUpdate "T" [1] [("A", [.int 5])], .bulkUpdate "T" [1] [("B", [.int 5])]] ∧
+    st'.direct = [true, false] := by
+  refine ⟨_, rfl, ?_, ?_⟩
+  · decide +kernel
+  · decide +kernel
+
+/-- a `flushcol` step (type conversion of a column while data is entered): its update is
+    marked non-direct, after the direct `ModifyColumn` -/
+def exWord2 : List Step :=
+  [.doc (.modifyColumn "T" "B" { formula := some "$A+1" }) true,
+   .calc "T" "B" [(2, .int 0, .int 1)],
+   .flushcol "T" "B"]
+
+example : ∃ st', run exSt exWord2 = .ok st' ∧
+    st'.stored = [.modifyColumn "T" "B" { formula := some "$A+1" },
+                  .bulkUpdate "T" [2] [("B", [.int 1])]] ∧
+    st'.direct = [true, false] := by
+  refine ⟨_, rfl, ?_, ?_⟩
+  · decide +kernel
+  · decide +kernel
+
+/-- a rollback to the checkpoint (0, 0) after one doc step: succeeds and leaves empty lists -/
+example : ∃ st1 st', run exSt [.doc (.bulkUpdate "T" [1] [("A", [.int 5])]) true] = .ok st1 ∧
+    rollback st1 0 0 = .ok st' ∧ st'.stored.length = st'.direct.length := by
+  refine ⟨_, _, rfl, rfl, ?_⟩
+  rfl
+
 end Grist.Doc
